@@ -46,7 +46,7 @@ def cells_for(dom, specials, knots, tier="quick"):
 
     if lo is not None and hi is not None:
         w = hi - lo
-        for fr in (0.5, 0.21, 0.83):
+        for fr in (0.47, 0.21, 0.83):  # generic fractions: never a knot of a uniform 1..12-bin spline
             add(lo + w * fr, "interior")
         add(lo, "end-point")
         add(hi, "end-point")
